@@ -15,29 +15,36 @@ Theorem C22_pred_equiv : forall (np : nat) (m : nat -> bool) (c : commit) (store
   stored = changed_paths np c -> pred_index m stored = pred_diff np m c.
 Proof. intros np m c stored ->. apply pred_equiv. Qed.
 
-(** Incremental indexing and (re)building keep every stored set exact: after ANY sequence of
-    commits and index builds (any [max_commits], any interleaving), whatever the index
+(** Incremental indexing, (re)building and merging concurrent operations keep every stored
+    set exact: after ANY history — commits, index builds with any [max_commits], pairs of
+    concurrent operations merged by [merge_in], in any interleaving — whatever the index
     stores for a position is exactly that commit's changed paths, and the indexed range lies
     inside the commit index. *)
-Theorem C22_build_exact : forall (np : nat) (steps : list step),
-  (N.of_nat (length steps) < U32MAX)%N ->
-  let (cs, ix) := run np steps in
+Theorem C22_build_exact : forall (np : nat) (steps : list tstep),
+  (N.of_nat (tsizes steps) < U32MAX)%N ->
+  let (cs, ix) := run_t np steps in
   (forall pos paths, cp_lookup ix pos = Some paths ->
      exists c, nth_error cs pos = Some c /\ paths = changed_paths np c) /\
   (forall s es, ix = Some (s, es) -> s + length es <= length cs).
 Proof.
-  intros np steps H. assert (He := run_exact np steps H).
-  destruct (run np steps) as [cs ix]. exact He.
+  intros np steps H. assert (He := run_t_exact np steps H).
+  destruct (run_t np steps) as [cs ix]. exact He.
 Qed.
 
 (** ... hence file-filtered queries return the same commits with or without the index. *)
-Theorem C22_files_equiv : forall (np : nat) (steps : list step) (m : nat -> bool) pos c,
-  (N.of_nat (length steps) < U32MAX)%N ->
-  nth_error (fst (run np steps)) pos = Some c ->
-  files_pred np m (snd (run np steps)) pos c = pred_diff np m c.
+Theorem C22_files_equiv : forall (np : nat) (steps : list tstep) (m : nat -> bool) pos c,
+  (N.of_nat (tsizes steps) < U32MAX)%N ->
+  nth_error (fst (run_t np steps)) pos = Some c ->
+  files_pred np m (snd (run_t np steps)) pos c = pred_diff np m c.
 Proof.
-  intros np steps m pos c H Hc. exact (files_equiv np _ _ m pos c (run_exact np steps H) Hc).
+  intros np steps m pos c H Hc. exact (files_equiv np _ _ m pos c (run_t_exact np steps H) Hc).
 Qed.
+
+(** The merge of two concurrent operations alone. *)
+Theorem C22_merge_exact : forall (np : nat) cs0 A B ix1 ix2,
+  exact np (cs0 ++ A) ix1 -> exact np (cs0 ++ B) ix2 ->
+  exact np ((cs0 ++ A) ++ B) (merge_in (length (cs0 ++ A)) ix1 (length cs0) ix2 (length B)).
+Proof. exact merge_in_exact. Qed.
 
 (** Coverage: the indexed positions are exactly the contiguous range [start, start+len);
     a build with [max_commits] at least the number of commits indexes the whole history. *)
@@ -86,8 +93,13 @@ Definition C22_ex_steps : list step :=
    SBuild 4294967295].
 Example C22_nonvacuous :
   snd (run 2 (firstn 5 C22_ex_steps)) = Some (2, [[1]; [0]]) /\
-  snd (run 2 C22_ex_steps) = Some (0, [[]; [0]; [1]; [0]]).
-Proof. split; vm_compute; reflexivity. Qed.
+  snd (run 2 C22_ex_steps) = Some (0, [[]; [0]; [1]; [0]]) /\
+  (* two concurrent operations on an enabled index: both sides' paths survive the merge *)
+  snd (run_t 2 [TOne (SCommit (mk_commit [0; 0]%N [0; 0]%N)); TOne (SBuild 0);
+                TFork [SCommit (mk_commit [1; 0]%N [0; 0]%N)]
+                      [SCommit (mk_commit [0; 2]%N [0; 0]%N)]])
+  = Some (1, [[0]; [1]]).
+Proof. repeat split; vm_compute; reflexivity. Qed.
 
 Print Assumptions C22_pred_equiv.
 Print Assumptions C22_build_exact.
